@@ -288,6 +288,16 @@ def g_dsa_verify(ctx: Ctx) -> Op:
         r2, s2 = {"sig-high-s": (sig.r, N - sig.s), "sig-r-zero": (0, sig.s), "sig-s-zero": (sig.r, 0), "sig-r-eq-n": (N, sig.s),
                   "sig-s-eq-n": (sig.r, N), "sig-r-gt-n": (sig.r + N, sig.s)}[sc]
         sig_arg = dsa.Sig(r2, s2, check_validity=False)
+    if kind in ("recover_pub_keys_", "recover_pub_key_") and d == -1 and ch.chance(1, 4, "dsav.inf-key"):
+        # a signature nobody made but anybody may hand in: s*K == c*G, so the key it recovers to is infinity
+        k = H.uniform_scalar(ch, "dsav.inf.k")
+        K = mult(k)
+        c = int.from_bytes(h, "big") % N
+        sig_inf = dsa.Sig(K[0] % N, c * pow(k, -1, N) % N, check_validity=False)
+        if kind == "recover_pub_keys_":
+            return Op("dsa.recover_pub_keys_", "recovered-key-infinity", lambda: dsa.recover_pub_keys_(h, sig_inf))
+        kid = (K[1] & 1) ^ ch.draw(2, "dsav.inf.otherkid")
+        return Op("dsa.recover_pub_key_", "recovered-key-infinity" if kid == K[1] & 1 else "valid", lambda: dsa.recover_pub_key_(kid, h, sig_inf), note=f"key_id={kid}")
     if kind == "recover_pub_keys_":
         return Op("dsa.recover_pub_keys_", _cls(sc, mc), lambda: dsa.recover_pub_keys_(m, sig_arg))
     if kind == "recover_pub_key_":
@@ -348,6 +358,17 @@ def g_ssa_verify(ctx: Ctx) -> Op:
         mc, m = "another-message", m + b"\x01"
     if sc == "valid" and ch.draw(2, "ssav.sigobj"):
         sig_arg = ssa.Sig.parse(sig)
+    if d == -1 and kind != "verify_/prepared" and ch.chance(1, 5, "ssav.inf-nonce"):
+        # what the key holder can build and anybody can hand in: s = e*q, so that s*G - e*Q is infinity
+        import hashlib  # noqa: PLC0415
+
+        Q = mult(q)
+        q_even = q if Q[1] % 2 == 0 else N - q
+        r = mult(H.uniform_scalar(ch, "ssav.inf.r"))[0]
+        tag = hashlib.sha256(b"BIP0340/challenge").digest()
+        e = int.from_bytes(hashlib.sha256(tag + tag + H.b32(r) + H.b32(Q[0]) + m).digest(), "big") % N
+        sig_inf = ssa.Sig(r, e * q_even % N, check_validity=False)
+        return Op(f"ssa.{kind}", "nonce-point-infinity", lambda: getattr(ssa, kind)(m, H.b32(Q[0]), sig_inf))
     if kind == "verify_/prepared":
         Q = mult(q)
         even = Q if Q[1] % 2 == 0 else (Q[0], H.P - Q[1])
